@@ -6,6 +6,9 @@ T2 part (Python ast -> Gallina, fail closed), all re-read from the working tree 
   * filter_to_standard_bit_length                                                              -> filter_to_standard_bit_length : pty -> option Z
   * filter_literal, the pydsdl.IntegerType branch (+ the path condition that reaches it)       -> filter_literal_int, filter_literal_int_guard
   * filter_literal, the expression part of the pydsdl.FloatType branch                         -> filter_literal_float_expr
+  * _float_division_expr (helper of that branch)                                               -> float_division_expr
+    `repr(float(value))` (shortest round-trip decimal of the correctly rounded value: library behaviour) is NOT modelled: it
+    becomes a call of the oracle parameter `repr_float : (Z * Z) -> str` that both definitions take
   (`raise` = None.  Python builtins are mapped to the definitions of Gen/MetaC05Base.v: str(int) -> py_str_int,
    str * bool -> str_times_bool, isinstance(x, pydsdl.C) -> py_isinstance x C_C, "..{}..".format(ints) -> concatenation.)
 
@@ -31,6 +34,7 @@ HEAD = gen.HEADER % SOURCES + ('From Coq Require Import List NArith ZArith Bool.
 T_OPT_INT = 'option Z'
 T_PTY = 'pty'
 T_FRAC = '(Z * Z)'
+ORACLE = ('repr_float', '(Z * Z) -> str')
 PYDSDL_CLASSES = ('BooleanType', 'IntegerType', 'UnsignedIntegerType', 'SignedIntegerType', 'FloatType', 'VoidType', 'PrimitiveType',
                   'ArithmeticType')
 
@@ -40,10 +44,11 @@ class Tr5(pyfun_tr.Tr):
     constant powers, isinstance against pydsdl classes, ty.bit_length, Fraction numerator/denominator, _CFit members,
     cls(x) of an enumeration (= the member with that value), str.format with positional `{}` placeholders."""
 
-    def __init__(self, ctx, partial: bool, enum: typing.Optional[typing.Dict[str, int]] = None):
+    def __init__(self, ctx, partial: bool, enum: typing.Optional[typing.Dict[str, int]] = None, oracle: bool = False):
         super().__init__(ctx)
         self.partial = partial
         self.enum = enum or {}
+        self.oracle = oracle
 
     def expr(self, e, env):
         if isinstance(e, ast.Call):
@@ -60,6 +65,23 @@ class Tr5(pyfun_tr.Tr):
                 if tv != T_INT:
                     raise Unsupported('str() of %s' % tv)
                 return '(py_str_int %s)' % v, T_STR
+            if isinstance(f, ast.Name) and f.id == 'abs' and len(e.args) == 1 and not e.keywords:
+                v, tv = self.expr(e.args[0], env)
+                if tv != T_INT:
+                    raise Unsupported('abs() of %s' % tv)
+                return '(Z.abs %s)' % v, T_INT
+            if (isinstance(f, ast.Name) and f.id == 'repr' and len(e.args) == 1 and not e.keywords and self.oracle
+                    and isinstance(e.args[0], ast.Call) and isinstance(e.args[0].func, ast.Name) and e.args[0].func.id == 'float'
+                    and len(e.args[0].args) == 1 and not e.args[0].keywords):
+                v, tv = self.expr(e.args[0].args[0], env)
+                if tv != T_FRAC:
+                    raise Unsupported('repr(float()) of %s' % tv)
+                return '(repr_float %s)' % v, T_STR          # oracle: shortest round-trip decimal of the correctly rounded value
+            if (isinstance(f, ast.Name) and f.id == '_float_division_expr' and len(e.args) == 1 and not e.keywords and self.oracle):
+                v, tv = self.expr(e.args[0], env)
+                if tv != T_FRAC:
+                    raise Unsupported('_float_division_expr of %s' % tv)
+                return '(float_division_expr repr_float %s)' % v, T_STR
             if isinstance(f, ast.Name) and f.id == 'cls' and len(e.args) == 1 and self.enum:
                 v, tv = self.expr(e.args[0], env)      # Enum(member) is that member
                 if tv != T_INT:
@@ -156,9 +178,9 @@ class Tr5(pyfun_tr.Tr):
 
 def translate(fn: ast.FunctionDef, coq_name: str, params: typing.List[typing.Tuple[str, str]], ret: str, partial: bool,
               enum: typing.Optional[typing.Dict[str, int]] = None, body: typing.Optional[typing.List[ast.stmt]] = None,
-              skip_params: typing.Sequence[str] = ('self', 'cls')) -> str:
+              skip_params: typing.Sequence[str] = ('self', 'cls'), oracle: bool = False) -> str:
     spec = FunSpec(cls=None, name=fn.name, coq_name=coq_name, params=dict(params), ret=ret)
-    tr = Tr5(pyfun_tr.Ctx(spec, None), partial, enum)
+    tr = Tr5(pyfun_tr.Ctx(spec, None), partial, enum, oracle)
     env = {n: (n, t) for n, t in params}
     if body is None:
         args = [a.arg for a in fn.args.args if a.arg not in skip_params]
@@ -168,7 +190,7 @@ def translate(fn: ast.FunctionDef, coq_name: str, params: typing.List[typing.Tup
             raise Unsupported('%s: varargs' % fn.name)
         body = list(fn.body)
     text = tr.block(list(body), env)
-    ps = ' '.join('(%s : %s)' % p for p in params)
+    ps = ' '.join('(%s : %s)' % p for p in ([ORACLE] if oracle else []) + list(params))
     return 'Definition %s %s : %s :=\n  %s.' % (coq_name, ps, ('option ' + ret) if partial else ret, text)
 
 
@@ -424,8 +446,12 @@ def gen_c05() -> typing.Tuple[bool, str]:
                 and ast.unparse(float_body[1]) == 'cast = filter_type_from_primitive(language, ty)'
                 and ast.unparse(float_body[2]) == 'return cast_format.format(type=cast, value=expr)'):
             raise Unsupported('filter_literal: FloatType branch has an unexpected shape')
+        fd = pyfun_tr.find_function(cc, None, '_float_division_expr')
+        _decorators_ok(fd, ())
+        parts.append(translate(fd, 'float_division_expr', [('value', T_FRAC)], T_STR, False, oracle=True))
         ret_expr = ast.parse('return expr').body
-        parts.append(translate(fn, 'filter_literal_float_expr', [('value', T_FRAC)], T_STR, False, body=[float_body[0]] + ret_expr))
+        parts.append(translate(fn, 'filter_literal_float_expr', [('value', T_FRAC)], T_STR, False, body=[float_body[0]] + ret_expr,
+                               oracle=True))
         parts.append(scan_templates())
     except (Unsupported, SyntaxError, OSError) as ex:
         gen.write_if_changed(OUT, HEAD + '(* translator failed closed: %s *)\n' % str(ex).replace('*)', '* )'))
